@@ -501,6 +501,12 @@ class FormParameter:  # pylint: disable=too-many-instance-attributes
 
         error_list = []
         members = MEMBER_KEYS.map(members)
+        previous = {
+            member: getattr(self, f"_{member}").value
+            for member in members
+            if member in self.valid_members
+        }
+        active = list(self._active_members)
         for member in list(members):
             if member in self.valid_members:
                 try:
@@ -509,6 +515,11 @@ class FormParameter:  # pylint: disable=too-many-instance-attributes
                     error_list.append(err)
 
         if error_list:
+            # a refused update leaves the form as it was
+            for member, value in previous.items():
+                getattr(self, f"_{member}")._value = value  # pylint: disable=protected-access
+            self._active_members = active
+
             if len(error_list) == 1:
                 raise error_list.pop()
             raise AggregateValidationError(self.name, error_list)
